@@ -6,7 +6,7 @@
      obs{lr, fr, lc, fc, ll, fl}       after the op: what the LIVE objects answer (lr lc ll) and what objects FRESHLY
                                        built from the dumped configuration answer (fr fc fl)
                                          routers:   name -> <<"absent">> | <<"nil">> | answers to Probes
-                                         clusters:  name -> [st, lb, hosts, sup]   (sup = hosts returned by ChooseHost)
+                                         clusters:  name -> [st, lb, hosts = <<[h, a]>>, sup]   (a = attribute class of the host, sup = hosts returned by ChooseHost)
                                          listeners: name -> "absent" | variant
      restart{fr, fc, fl}               the managers were torn down and re-created from the dump (fresh MOSN)
    Every expectation is a soft Expect, so one divergence does not hide the next one. *)
@@ -14,7 +14,9 @@ EXTENDS ConfigStore, VTrace
 
 tvars == <<vars, l>>
 S(seq) == { seq[i] : i \in DOMAIN seq }
-Locs(seq) == [ i \in DOMAIN seq |-> S(seq[i]) ]
+(* host maps are logged as sequences of [h |-> address id, a |-> attribute class] *)
+HM(seq) == [ x \in { seq[i].h : i \in DOMAIN seq } |-> seq[CHOOSE i \in DOMAIN seq : seq[i].h = x].a ]
+Locs(seq) == [ i \in DOMAIN seq |-> HM(seq[i]) ]
 
 TraceInit == l = 1 /\ Init
 
@@ -31,9 +33,9 @@ Apply(e) ==
     [] e.kind = "addroute"     -> DoAddRoute(e.r, e.dom, e.rt)
     [] e.kind = "rmroutes"     -> DoRmRoutes(e.r, e.dom)
     [] e.kind = "primary"      -> DoPrimary(e.c, e.lb)
-    [] e.kind = "clusterhosts" -> DoClusterHosts(e.c, e.lb, S(e.hs))
-    [] e.kind = "updhosts"     -> DoUpdHosts(e.c, S(e.hs))
-    [] e.kind = "append"       -> DoAppend(e.c, S(e.hs))
+    [] e.kind = "clusterhosts" -> DoClusterHosts(e.c, e.lb, HM(e.hs))
+    [] e.kind = "updhosts"     -> DoUpdHosts(e.c, HM(e.hs))
+    [] e.kind = "append"       -> DoAppend(e.c, HM(e.hs))
     [] e.kind = "rmhosts"      -> DoRmHosts(e.c, S(e.hs))
     [] e.kind = "rmcluster"    -> DoRmCluster(S(e.cs))
     [] e.kind = "endpoints"    -> DoEndpoints(e.c, Locs(e.locs))
@@ -46,16 +48,19 @@ TOp == /\ IsEvent("op")
        /\ Expect(Ev.err = err', "error-result")
        /\ pre' = pre /\ hist' = hist
 
-(* one observed cluster against the specification's cluster *)
+(* one observed cluster against the specification's cluster: membership, then the attributes of the members *)
+Addrs(o) == { o.hosts[i].h : i \in DOMAIN o.hosts }
 ClusterOk(o, c) ==
   /\ o.st = c.st
   /\ c.st = "ok" => /\ o.lb = c.lb
-                    /\ Len(o.hosts) = Cardinality(S(o.hosts))     \* no address twice
-                    /\ S(o.hosts) = c.hosts
+                    /\ Len(o.hosts) = Cardinality(Addrs(o))     \* no address twice
+                    /\ Addrs(o) = DOMAIN c.hosts
+AttrsOk(o, c) ==   \* every member carries the attributes of the LAST update that named its address
+  ClusterOk(o, c) => \A i \in DOMAIN o.hosts : o.hosts[i].a = c.hosts[o.hosts[i].h]
 SupportOk(o) ==   \* host selection only returns members; round robin returns every member
-  /\ S(o.sup) \subseteq S(o.hosts)
+  /\ S(o.sup) \subseteq Addrs(o)
   /\ (o.hosts # << >>) => o.sup # << >>
-  /\ o.lb = "rr" => S(o.sup) = S(o.hosts)
+  /\ o.lb = "rr" => S(o.sup) = Addrs(o)
 
 TObs == /\ IsEvent("obs")
         /\ \A r \in Routers :
@@ -65,6 +70,8 @@ TObs == /\ IsEvent("obs")
         /\ \A c \in Clusters :
              /\ Expect(ClusterOk(Ev.lc[c], lC[c]), "cluster-live-differs-from-spec")
              /\ Expect(ClusterOk(Ev.fc[c], BuildC(sC[c])), "cluster-dump-differs-from-spec")
+             /\ Expect(AttrsOk(Ev.lc[c], lC[c]), "host-attributes-live-differ-from-last-update")
+             /\ Expect(AttrsOk(Ev.fc[c], BuildC(sC[c])), "host-attributes-dump-differ-from-last-update")
              /\ Expect(Ev.lc[c].st = Ev.fc[c].st /\ Ev.lc[c].lb = Ev.fc[c].lb /\ S(Ev.lc[c].hosts) = S(Ev.fc[c].hosts),
                        "cluster-live-differs-from-dump")
              /\ Expect(SupportOk(Ev.lc[c]) /\ SupportOk(Ev.fc[c]), "host-selection-outside-host-set")
@@ -76,7 +83,7 @@ TObs == /\ IsEvent("obs")
 
 TRestart == /\ IsEvent("restart")
             /\ \A r \in Routers : Expect(Ev.fr[r] = ViewR(lR[r]), "router-after-restart-differs")
-            /\ \A c \in Clusters : Expect(ClusterOk(Ev.fc[c], lC[c]) /\ SupportOk(Ev.fc[c]), "cluster-after-restart-differs")
+            /\ \A c \in Clusters : Expect(ClusterOk(Ev.fc[c], lC[c]) /\ AttrsOk(Ev.fc[c], lC[c]) /\ SupportOk(Ev.fc[c]), "cluster-after-restart-differs")
             /\ \A n \in Listeners : Expect(Ev.fl[n] = lL[n], "listener-after-restart-differs")
             /\ UNCHANGED vars
 
